@@ -6,7 +6,8 @@ use symcore::*;
 
 pub fn instances(tier: &str) -> Vec<String> {
     let mut v: Vec<String> = vec!["deg0".into(), "deg1_real".into(), "deg1_cmplx".into(), "deg2_real".into(), "deg2_cmplx".into(), "deg3_triple".into(), "deg1_real_refine".into()];
-    if tier == "thorough" { v.push("deg3_real".into()); v.push("deg2_real_refine".into()); }
+    v.push("deg3_real".into()); // general Cardano branch, real coefficients (complex coefficients: path decisions do not finish)
+    if tier == "thorough" { v.push("deg2_real_refine".into()); }
     v
 }
 
@@ -29,16 +30,50 @@ fn certificate(tag: &str, g: Cmplx, m: Cmplx, hyps: &[(Cmplx, Cmplx)]) -> bool {
     let lhs = g * m;
     let mut all = ok(prove_eq(&format!("{}: certificate identity (real part)", tag), lhs.real, rhs.real));
     all &= ok(prove_eq(&format!("{}: certificate identity (imaginary part)", tag), lhs.imag, rhs.imag));
+    all &= hypotheses_and_factors(tag, hyps, &[m]);
+    all
+}
+
+fn hypotheses_and_factors(tag: &str, hyps: &[(Cmplx, Cmplx)], factors: &[Cmplx]) -> bool {
+    let ok = |p: Proof| p == Proof::Solver || p == Proof::Syntactic;
+    let mut all = true;
     for (k, (h, _)) in hyps.iter().enumerate() {
         all &= ok(prove(&format!("{}: hypothesis {} vanishes (real part)", tag, k), eq(h.real, z())));
         all &= ok(prove(&format!("{}: hypothesis {} vanishes (imaginary part)", tag, k), eq(h.imag, z())));
     }
-    all &= ok(prove(&format!("{}: multiplier is nonzero", tag), B::or(vec![ne(m.real, z()), ne(m.imag, z())])));
+    for (k, m) in factors.iter().enumerate() {
+        all &= ok(prove(&format!("{}: multiplier factor {} is nonzero", tag, k), B::or(vec![ne(m.real, z()), ne(m.imag, z())])));
+    }
     // the field step, on abstract values
     let (gr, gi, mr, mi) = (Sym::var("G.re"), Sym::var("G.im"), Sym::var("M.re"), Sym::var("M.im"));
     let step = B::implies(B::and(vec![eq(gr * mr - gi * mi, z()), eq(gr * mi + gi * mr, z()), B::or(vec![ne(mr, z()), ne(mi, z())])]), B::and(vec![eq(gr, z()), eq(gi, z())]));
     all &= ok(prove_closed("complex field step: G*M = 0 and M != 0 imply G = 0", step));
     all
+}
+
+/// Cardano, as a certificate.  With C a cube root of beta, L = d0/C, x = -(b + C + L)/(3a):
+///   27 a^2 C^3 p(x) = C^3 (hx Q - 3 hL y) - hL (3 d0^2 + 3 d0 hL + hL^2) - hA + hC (d1 - 2 beta - hC)
+/// where hx = 3ax + b + C + L, hL = L C - d0, hC = C^3 - beta, hA = beta^2 - d1 beta + d0^3, y = C + L,
+/// Q = t^2 + t t0 + t0^2 + 3b(t + t0) + 9ac with t = 3ax, t0 = -b - y.  Returns (g, factors, [(h, cofactor)]).
+fn cardano(a: Cmplx, b: Cmplx, c: Cmplx, d: Cmplx, x: Cmplx, cc: Cmplx, l: Cmplx, beta: Cmplx) -> (Cmplx, Vec<Cmplx>, Vec<(Cmplx, Cmplx)>) {
+    let n = |k: f64| Sym::lit(k);
+    let d0 = b * b - a * c * n(3.0);
+    let d1 = b * b * b * n(2.0) - a * b * c * n(9.0) + a * a * d * n(27.0);
+    let g = a * x * x * x + b * x * x + c * x + d;
+    let y = cc + l;
+    let hx = a * x * n(3.0) + b + cc + l;
+    let hl = l * cc - d0;
+    let c3 = cc * cc * cc;
+    let hc = c3 - beta;
+    let ha = beta * beta - d1 * beta + d0 * d0 * d0;
+    let t = a * x * n(3.0);
+    let t0 = -b - y;
+    let q = t * t + t * t0 + t0 * t0 + b * (t + t0) * n(3.0) + a * c * n(9.0);
+    let cof_x = c3 * q;
+    let cof_l = -(c3 * y * n(3.0)) - (d0 * d0 * n(3.0) + d0 * hl * n(3.0) + hl * hl);
+    let cof_a = Cmplx::new(n(-1.0), z());
+    let cof_c = d1 - beta * n(2.0) - hc;
+    (g, vec![a * a * n(27.0), cc, cc, cc], vec![(hx, cof_x), (hl, cof_l), (ha, cof_a), (hc, cof_c)])
 }
 
 /// p(root) = 0 as a complex identity, Horner-free
@@ -94,7 +129,9 @@ pub fn body(inst: &str) {
             match catch(run) {
                 Ok(r) => {
                     prove(&format!("exactly {} values are returned", deg), if r.size() == deg { B::True } else { B::False });
-                    if r.size() == deg {
+                    if r.size() == deg && deg == 3 {
+                        cubic_paths(&coeffs, &[r[0], r[1], r[2]]);
+                    } else if r.size() == deg {
                         if deg == 2 && !real {
                             // complex coefficients: the direct obligation for the root c/q is beyond nlsat; decide it through a certificate.
                             // q := a * root0  (root0 = q/a);  h2 := q^2 + b q + a c;  h1 := root1 * q - c
@@ -121,6 +158,53 @@ pub fn body(inst: &str) {
                     }
                 }
                 Err(st) => must_not_stop(&format!("degree {} with nonzero leading coefficient: finite roots must be returned", deg), &st),
+            }
+        }
+    }
+}
+
+/// Degree 3: decide p(x_k) = 0 for the three returned values on the current path.
+fn cubic_paths(coeffs: &[Cmplx], roots: &[Cmplx; 3]) {
+    let (a, b, c, d) = (coeffs[3], coeffs[2], coeffs[1], coeffs[0]);
+    let calls = stub_calls();
+    let cbrt = calls.iter().find(|s| s.0 == "ccbrt");
+    let n = |k: f64| Sym::lit(k);
+    let d0 = b * b - a * n(3.0) * c; // same expression order as the library: b2 - 3.*a*c
+    match cbrt {
+        None => {
+            // three equal roots (d0 = d1 = 0 on this path): 27 a^2 p(w) = d1 - 3 d0 h + h^3 with h = 3aw + b
+            let d1 = b * b * b * n(2.0) - a * b * c * n(9.0) + a * a * d * n(27.0);
+            for k in 0..3 {
+                let w = roots[k];
+                let h = w * (a * n(3.0)) + b;
+                let g = a * w * w * w + b * w * w + c * w + d;
+                let one = Cmplx::new(n(1.0), z());
+                if !certificate(&format!("cubic (triple-root branch) root {}", k), g, a * a * n(27.0), &[(d1, one), (d0, h * n(-3.0)), (h, h * h)]) { is_root(&format!("cubic root {}", k), coeffs, w); }
+            }
+        }
+        Some((_, bre, bim, kre, kim)) => {
+            // the identity once, on abstract values (a pure polynomial identity in 8 complex unknowns)
+            let f = |p: &str| Cmplx::new(Sym::var(&format!("{}.re", p)), Sym::var(&format!("{}.im", p)));
+            let (ga, factors_a, hyps_a) = cardano(f("A"), f("B"), f("C"), f("D"), f("X"), f("Cc"), f("L"), f("Beta"));
+            let mut lhs = ga;
+            for m in &factors_a { lhs = lhs * *m; }
+            let mut rhs = cz();
+            for (h, cof) in &hyps_a { rhs = rhs + *cof * *h; }
+            let okp = |p: Proof| p == Proof::Solver || p == Proof::Syntactic;
+            let mut ident = okp(prove_closed("Cardano certificate identity (real part, abstract)", eq(lhs.real, rhs.real)));
+            ident &= okp(prove_closed("Cardano certificate identity (imaginary part, abstract)", eq(lhs.imag, rhs.imag)));
+            // the hypotheses on the library's own terms
+            let beta = Cmplx::new(*bre, *bim);
+            let kk = Cmplx::new(*kre, *kim);
+            let u = Cmplx::new(n(-0.5), n(3.0).sqrt() / n(2.0));
+            let u2 = u * u;
+            let cs = [kk, u * kk, u2 * kk];
+            for k in 0..3 {
+                let cc = cs[k];
+                let l = d0 / cc;
+                let (_g, factors, hyps) = cardano(a, b, c, d, roots[k], cc, l, beta);
+                let good = ident && hypotheses_and_factors(&format!("cubic (Cardano) root {}", k), &hyps, &[factors[0], factors[1]]);
+                if good { check_that(true, || String::new()); } else { is_root(&format!("cubic root {}", k), coeffs, roots[k]); }
             }
         }
     }
